@@ -114,6 +114,13 @@ CLAIMED["C19"] = (
     "Trusts TLC/Json; spans are read from the public fields / span() accessors; rendering through miette::Report's Debug output.",
     "DESIGN.md section 5, C19")
 
+CLAIMED["C14"] = (
+    "TLC-enumerated boundary matrix (MC_Backend: default row, every single and pairwise deviation over 10 environment factors) x templates from MC_Lang, MC_Closure and a seeded random IR generator, run through apply/reduce/compile and resolve_tx in an isolated child + TLC trace validation of the outcome alphabet (Trace_Backend)",
+    "TLC enumerates the rows of the matrix (integer class, byte length, address kind, UTxO contents, store, cost models, fee parameters, fee, network, compiler history); each template is resolved in every single-deviation row and sampled pairs, and TLC validates that every recorded stage outcome is ok or err - "
+    "a panic, abort or timeout has no action in the Backend spec.",
+    "The spec's role is the matrix and the outcome alphabet; trusts TLC/Json and child-process isolation (20 s timeout per case).",
+    "DESIGN.md section 5, C14")
+
 ALL = ["C%02d" % i for i in range(1, 21)]
 
 NOT_YET = "check not built yet in this revision of /verif (planned: see DESIGN.md section 5); not claimed until its machinery exists and is quiet on the unchanged tree"
